@@ -51,3 +51,9 @@ silent("C18", "undo_swaps-rename-local",
 silent("C18", "finite_diff-guard-as-is-not",
        [(FD, "    if new_tape is tape:\n        return [tape], postprocessing\n    params = new_tape.get_parameters(trainable_only=False)\n    new_tape.trainable_params = math.get_trainable_indices(params)\n    return [new_tape], postprocessing",
              "    if new_tape is not tape:\n        params = new_tape.get_parameters(trainable_only=False)\n        new_tape.trainable_params = math.get_trainable_indices(params)\n    return [new_tape], postprocessing")])
+
+BASE = "pennylane/core/operator/base.py"
+fire("C18", "operator-map_wires-edits-self-reached-by-dispatch",
+     (BASE, "        new_op = copy.copy(self)\n        new_op._wires = Wires([wire_map.get(wire, wire) for wire in self.wires])",
+            "        new_op = self\n        new_op._wires = Wires([wire_map.get(wire, wire) for wire in self.wires])"),
+     "R-C18-effect", "map_wires")
